@@ -180,8 +180,14 @@ func c14Run(run *ev.Run) {
 		depth = 6
 	}
 	var total seqx.Stats
-	for i, spec := range []world.Spec{{Store: "memory", Forward: true, Logout: true}, {Store: "redis", Forward: true, Logout: true}} {
-		m := c14Opts(run.Tier, spec).model(c14Monitor(run, spec))
+	for i, spec := range []world.Spec{{Store: "memory", Forward: true, Logout: true}, {Store: "redis", Forward: true, Logout: true},
+		{Store: "memory", Forward: true, Logout: true, Discovery: true, NoLogoutRedirect: true}, {Store: "memory", Logout: true, Discovery: true}} {
+		o := c14Opts(run.Tier, spec)
+		if spec.Discovery {
+			// discovery worlds: the plain alphabet (no faults), one level deeper is not needed: login, use, logout
+			o.Faults, o.BadIdP, o.NearMiss, o.Replays, o.MaxDev = false, nil, false, false, 0
+		}
+		m := o.model(c14Monitor(run, spec))
 		m.MaxDepth = depth
 		st := seqx.Explore(run, m)
 		total.States += st.States
